@@ -515,7 +515,23 @@ func genSchedule(c *vf.Ctx, i int, r *rand.Rand) *schedule {
 	s.genParams = mkParams(r)
 	W := int64(7)
 	layout := i % 8
+	if i%24 == 23 {
+		layout = 8
+	}
 	switch layout {
+	case 8: // the total power drops sharply a few heights before the boundary (the strongest validator
+		// leaves, a power-1 validator joins): the priority spread exceeds 2x the new total for several
+		// heights, so the per-height priority rescaling is active on the heights that follow
+		s.initial = 1
+		s.name = "power-drop"
+		for len(s.genesis) < 3 {
+			s.genesis = append(s.genesis, types.NewValidator(valKey(len(s.genesis)).PubKey(), 1))
+			nv++
+		}
+		for v := range s.genesis {
+			s.genesis[v].VotingPower = 20 + r.Int64N(40)
+		}
+		s.genesis[0].VotingPower = 200 + r.Int64N(800)
 	case 0, 1, 2: // chain from height 1, window around K
 		s.initial = 1
 		s.name = "initial=1,window@K"
@@ -574,9 +590,19 @@ func genSchedule(c *vf.Ctx, i int, r *rand.Rand) *schedule {
 		power[v] = g.VotingPower
 	}
 	nextNew := nv
-	for _, at := range pick(s.initial+2, K) { // old-chain layout: the record of K (a reference target) is dropped, so no change there
+	changeHeights := pick(s.initial+2, K)
+	if layout == 8 {
+		changeHeights = []int64{K - 5 + int64(r.IntN(4))}
+	}
+	for _, at := range changeHeights { // old-chain layout: the record of K (a reference target) is dropped, so no change there
 		var ch []*types.Validator
 		used := map[int]bool{}
+		if layout == 8 {
+			ch = append(ch, types.NewValidator(valKey(0).PubKey(), 0), types.NewValidator(valKey(nextNew).PubKey(), 1))
+			s.vals = append(s.vals, valChange{at: at, changes: ch})
+			c.Count("ss_power_drop_schedules", 1)
+			continue
+		}
 		for j := 1 + r.IntN(2); j > 0; j-- {
 			switch op := r.IntN(3); {
 			case op == 0 || len(power) <= 1: // add
